@@ -491,11 +491,33 @@ func (x *Exec) ghostField(owner *types.Named, name string) *GhostField {
 	return x.eng.ghosts[originKey(owner)+"."+name]
 }
 
+// ghostKeyType: key type of a ghost map field ("map T" is keyed by int, "mapfrom F T" by the key type of Go-map field F).
+func (x *Exec) ghostKeyType(owner *types.Named, g *GhostField) types.Type {
+	spec := strings.TrimSpace(g.Type)
+	if strings.HasPrefix(spec, "mapfrom ") {
+		fs := strings.Fields(spec)
+		i := fieldIndex(owner, fs[1])
+		if i < 0 {
+			panic(fmt.Errorf("ghost field %s.%s: no real field %s", g.Owner, g.Name, fs[1]))
+		}
+		mt, ok := structFieldType(owner, i).Underlying().(*types.Map)
+		if !ok {
+			panic(fmt.Errorf("ghost field %s.%s: %s is not a Go map", g.Owner, g.Name, fs[1]))
+		}
+		return mt.Key()
+	}
+	return types.Typ[types.Int]
+}
+
 func (x *Exec) ghostType(owner *types.Named, g *GhostField) (elem types.Type, isMap bool) {
 	spec := strings.TrimSpace(g.Type)
 	if strings.HasPrefix(spec, "map ") {
 		isMap = true
 		spec = strings.TrimSpace(spec[4:])
+	} else if strings.HasPrefix(spec, "mapfrom ") {
+		isMap = true
+		fs := strings.Fields(spec)
+		spec = strings.Join(fs[2:], " ")
 	}
 	switch {
 	case spec == "int":
@@ -522,7 +544,8 @@ func (x *Exec) ghostKey(owner *types.Named, g *GhostField) (key string, elem typ
 	elem, isMap = x.ghostType(owner, g)
 	es := x.ctx.sortOf(elem)
 	if isMap {
-		key = x.registerField(owner, g.Name, "ghostmap", arrSort("Int", es), elem)
+		ks := x.ctx.sortOf(x.ghostKeyType(owner, g))
+		key = x.registerField(owner, g.Name, "ghostmap", arrSort(ks, es), elem)
 	} else {
 		key = x.registerField(owner, g.Name, "", es, elem)
 	}
